@@ -73,6 +73,7 @@ void *tree_alloc(int n) {
   if (!p) abort();
   memset(p, 0xA5, n > 0 ? n : 1);
   g_tree.live[p] = n;
+  g_tree.owner[p] = g_tree.epoch;
   g_tree.n_alloc++;
   return p;
 }
@@ -87,7 +88,13 @@ void tree_free(void *p) {
     if (g_tree.bad.size() < 300) g_tree.bad += b;
     return; // do not hand it to free(): the verdict is what matters
   }
+  if (g_tree.owner[p] != g_tree.epoch) {
+    g_tree.n_bad_free++;
+    if (g_tree.bad.size() < 300) g_tree.bad += "free of a block allocated during another parse; ";
+    return;
+  }
   g_tree.live.erase(f);
+  g_tree.owner.erase(p);
   free(p);
 }
 
@@ -228,7 +235,8 @@ struct Walker {
     case YAEP_ANODE: return n->val.anode.cost;
     case YAEP_ALT: {
       long c0 = costOf(n->val.alt.node);
-      for (yaep_tree_node *a = n->val.alt.next; a && a->type == YAEP_ALT; a = a->val.alt.next)
+      long guard = 0;
+      for (yaep_tree_node *a = n->val.alt.next; a && a->type == YAEP_ALT && guard < 1000000; a = a->val.alt.next, guard++)
         if (costOf(a->val.alt.node) != c0 && cost_mode) bad("alternatives of one ALT node have different cost fields");
       return c0;
     }
@@ -297,19 +305,25 @@ struct Walker {
       break;
     }
     case YAEP_ALT: {
-      ti.n_alt++;
       if (one_parse) bad("ALT node although one parse was requested");
-      yaep_tree_node *a = n->val.alt.node;
-      if (!a) { bad("ALT without node"); break; }
-      if (a->type == YAEP_ALT) { bad("alternative of an ALT node is an ALT node"); break; }
-      res = den(a);
-      if (n->val.alt.next) {
-        if (n->val.alt.next->type != YAEP_ALT) { bad("ALT.next is not an ALT node"); break; }
-        const std::vector<Tr> &r2 = den(n->val.alt.next);
-        res.insert(res.end(), r2.begin(), r2.end());
-        std::sort(res.begin(), res.end());
-        res.erase(std::unique(res.begin(), res.end()), res.end());
+      // iterate over the chain (it can be very long: duplicated alternatives are allowed)
+      std::unordered_set<yaep_tree_node *> chain;
+      for (yaep_tree_node *c = n; c; c = c->val.alt.next) {
+        if (c->type != YAEP_ALT) { bad("ALT.next is not an ALT node"); break; }
+        if (!chain.insert(c).second) { bad("cycle in an ALT chain"); break; }
+        ti.n_alt++;
+        if (c != n) { ti.n_nodes++; indeg[c]++; }
+        yaep_tree_node *a = c->val.alt.node;
+        if (!a) { bad("ALT without node"); break; }
+        if (a->type == YAEP_ALT) { bad("alternative of an ALT node is an ALT node"); break; }
+        const std::vector<Tr> &d = den(a);
+        if (!ti.ok || ti.overflow) break;
+        res.insert(res.end(), d.begin(), d.end());
+        if (res.size() > (size_t)limit * 4) { std::sort(res.begin(), res.end()); res.erase(std::unique(res.begin(), res.end()), res.end()); }
+        if ((long)res.size() > limit * 4) { ti.overflow = true; break; }
       }
+      std::sort(res.begin(), res.end());
+      res.erase(std::unique(res.begin(), res.end()), res.end());
       if ((long)res.size() > limit) ti.overflow = true;
       break;
     }
@@ -320,6 +334,26 @@ struct Walker {
   }
 };
 } // namespace
+
+void collectBlocks(yaep_tree_node *root, std::set<void *> &blocks, long &nTerm) {
+  std::vector<yaep_tree_node *> st{root};
+  while (!st.empty()) {
+    yaep_tree_node *n = st.back(); st.pop_back();
+    if (!n || !blocks.insert(n).second) continue;
+    switch ((int)n->type) {
+    case YAEP_TERM: nTerm++; break;
+    case YAEP_ANODE:
+      blocks.insert((void *)n->val.anode.name);
+      for (int i = 0; n->val.anode.children[i]; i++) st.push_back(n->val.anode.children[i]);
+      break;
+    case YAEP_ALT: st.push_back(n->val.alt.node); if (n->val.alt.next) st.push_back(n->val.alt.next); break;
+    default: break;
+    }
+  }
+}
+long termcbCalls() { return g_termcb; }
+void resetTermcb() { g_termcb = 0; }
+void termcbFn(yaep_term *t) { cb_termcb(t); }
 
 void analyseTree(yaep_tree_node *root, bool cost_mode, bool one_parse, long limit, TreeInfo &ti) {
   Walker w(cost_mode, one_parse, limit, ti);
@@ -334,7 +368,8 @@ Outcome runParse(Binding &b, const std::vector<int> &codes, const Conf &cf, cons
   setAttrBase(codes.size() + 2);
   b.set_la(cf.la); b.set_one(cf.one); b.set_cost(cf.cost); b.set_rec(cf.rec); b.set_match(cf.match); b.set_dbg(cf.dbg);
   g_toks = &codes; g_tp = 0; g_errs = &o.errs; g_termcb = 0;
-  g_tree.reset();
+  if (po.keep_tracking) g_tree.newEpoch(); else g_tree.reset();
+  o.epoch = g_tree.epoch;
   yaep_tree_node *root = nullptr;
   int amb = 0;
   void *(*al)(int) = cf.freemode == 2 ? nullptr : tree_alloc;
@@ -343,6 +378,7 @@ Outcome runParse(Binding &b, const std::vector<int> &codes, const Conf &cf, cons
   o.rc = b.parse(cb_tok, cb_err, al, fr, &root, &amb);
   o.hook = yaep_verif;
   o.root = root != nullptr;
+  o.rootptr = root;
   o.amb = amb;
   o.errcode = b.error_code();
   { const char *m = b.error_message(); o.errmsg = m ? std::string(m, strnlen(m, 400)) : "(null)"; }
